@@ -97,6 +97,13 @@ pub fn braille_mathml(mathml: Element, nav_node_id: &str) -> Result<(String, usi
         /// Return the byte index of the first place to highlight
         fn highlight_first_indicator(braille: &mut String, braille_code: &str, start_index: usize, end_index: usize) -> usize {
             // chars in the braille block range use 3 bytes -- we can use that to optimize the code some
+            // that only holds if everything up to and including the first highlighted char is a braille char:
+            //   undefined chars are passed through and a broken rule file can leave ASCII in the string -- then there is no indicator to look for
+            if !braille.is_char_boundary(start_index) ||
+               !braille[..start_index].chars().all(|ch| ch.len_utf8() == 3) ||
+               braille[start_index..].chars().next().map_or(true, |ch| ch.len_utf8() != 3) {
+                return start_index;
+            }
             let first_ch = unhighlight(braille[start_index..start_index+3].chars().next().unwrap());
 
             // need to highlight (optional) capital/number, language, and style (max 2 chars) also in that (rev) order
